@@ -274,6 +274,10 @@ func checkC03(c *Ctx, r *Report) {
 		}
 	}
 
+	// ---- R5
+	r.rule("C03.R5", "slices handed out by *WriteBuffer methods (Drain, RecordsFrom) are fresh allocations, never aliases of the live b.batches backing array", 2)
+	checkBufferFresh(m, r, "C03.R5")
+
 	// ---- R4
 	ws := checkWriterTable(m, r, "C03.R4", tPartitionLog, "segments", false, map[string]string{
 		pkgStorage + ".NewPartitionLog":                    "empty list",
